@@ -578,8 +578,12 @@ where
             let mut buffer = vec![0; want_bytes];
             let n = self.file.read(&mut buffer)?;
             assert!(n <= left);
-            // Can't get EOF here.
-            assert_ne!(n, 0);
+            if n == 0 {
+                // The archive announced more data than the file holds.
+                return Err(Error::msg(
+                    "SigMF data ended before its announced size: truncated file?",
+                ));
+            }
             self.left -= n as u64;
             self.buf.extend(&buffer[..n]);
         }
